@@ -170,6 +170,8 @@ type regWorld struct {
 	regd    map[string]el.Node       // what was passed to the last successful RegisterNode per id
 	wrapOf  map[*recNode]*wrapNode   // the outermost wrapper a node object was registered behind
 	cwrapOf map[*recNode]*closerWrap // node objects registered behind a decorator that is itself a Closer
+
+	lastRemoveNodeErr error // what the last RemoveNode call returned
 }
 
 // regBrokerOpts: options handed to NewBroker by the current run ("accepted, but none are
@@ -335,6 +337,7 @@ func (w *regWorld) apply(op regOp) (ms []mismatch, failed bool) {
 			before = obj.Closes
 		}
 		err := w.broker.RemoveNode(ctx, el.NodeID(op.ID))
+		w.lastRemoveNodeErr = err
 		wasInUse := w.model.inUse(op.ID)
 		ok, closed := w.model.RemoveNode(op.ID)
 		failed = err != nil
@@ -757,6 +760,9 @@ func runRegistrySeqOps(rc *RunCtx, prop string, fixed []regOp) {
 			if prop == "C06" && tp.Choose(4, "closeerr") == 0 {
 				o.CloseErr = true
 			}
+			if prop == "C05" && tp.Choose(8, "closeerr") == 0 {
+				o.CloseErr = true // C05: a RemoveNode that fails because the node's Close fails is a failing call too
+			}
 			if (prop == "C06" || prop == "C20") && tp.Choose(4, "wrap") == 0 {
 				o.Wrap = 1 + tp.Choose(4, "wraplevels") // 3: a by-value node of a non-comparable type; 4: a decorator that is a Closer too
 			}
@@ -906,7 +912,14 @@ func runRegistrySeqOps(rc *RunCtx, prop string, fixed []regOp) {
 			if failed {
 				rc.Stat("calls.failed", 1)
 			}
-			if diff && failed && op.Kind != "send" {
+			if diff && failed && op.Kind == "rmnode" && w.lastRemoveNodeErr != nil && strings.Contains(w.lastRemoveNodeErr.Error(), "unable to close node") {
+				// the call failed BECAUSE closing the node failed: by the statement it is a failing RemoveNode like
+				// any other and must leave the registered nodes as they were (one precise class of its own)
+				rc.NonTrivial = true
+				if post := replayWorld(sim, types, ids, hist).inUseSignature(); post != preUse {
+					fail(mismatch{"failed-call-changed-state", "remove-node-close-failed", fmt.Sprintf("%s returned an error (%v) and yet unregistered the node: before {%s} after {%s}", op, w.lastRemoveNodeErr, preUse, post)}, i, hist)
+				}
+			} else if diff && failed && op.Kind != "send" {
 				// a failing call must leave everything observable as it was
 				rc.NonTrivial = true
 				if post := w.observable(); post != preObs {
